@@ -230,6 +230,9 @@ func (self *StreamDecoder) setErr(err error) {
 	self.err = err
 	mem := self.buf[:0]
 	self.buf = nil
+	// the buffer is gone: account for what was scanned so that Buffered() and InputOffset() stay valid
+	self.scanned += int64(self.scanp)
+	self.scanp = 0
 	freeBytes(mem)
 }
 
